@@ -67,6 +67,23 @@ MMulR(a, b, j) == IF j > Len(b) THEN <<>>
                   ELSE MAdd(MShift(MMulSmall(a, b[j]), j - 1), MMulR(a, b, j + 1))
 MMul(a, b) == Strip(MMulR(a, b, 1))
 
+\* general long division of magnitudes: [q |-> limbs, r |-> limbs], b # <<>>
+\* quotient limb = largest d in 0..B-1 with b*d <= rem, found by bisection
+RECURSIVE MDigit(_, _, _, _)
+MDigit(rem, b, lo, hi) ==   \* invariant: b*lo <= rem < b*(hi+1)
+  IF lo = hi THEN lo
+  ELSE LET mid == (lo + hi + 1) \div 2
+       IN IF MCmp(MMulSmall(b, mid), rem) <= 0 THEN MDigit(rem, b, mid, hi) ELSE MDigit(rem, b, lo, mid - 1)
+RECURSIVE MDivModR(_, _, _, _)
+MDivModR(a, b, i, rem) ==
+  IF i = 0 THEN [q |-> <<>>, r |-> rem]
+  ELSE LET cur == Strip(<<a[i]>> \o rem)
+           d == MDigit(cur, b, 0, B - 1)
+           nrem == MSub(cur, MMulSmall(b, d))
+           rest == MDivModR(a, b, i - 1, nrem)
+       IN [q |-> rest.q \o <<d>>, r |-> rest.r]
+MDivMod(a, b) == LET t == MDivModR(a, b, Len(a), <<>>) IN [q |-> Strip(t.q), r |-> t.r]
+
 (* ---- signed ---- *)
 Zero == [s |-> 0, l |-> <<>>]
 Mk(s, l) == LET n == Strip(l) IN IF n = <<>> THEN Zero ELSE [s |-> s, l |-> n]
@@ -115,6 +132,11 @@ TruncDivSmall(a, d) == LET t == MDivSmall(a.l, d)
 \* floor division: 0 <= r < d
 FloorDivSmall(a, d) == LET t == TruncDivSmall(a, d)
                        IN IF t.r < 0 THEN [q |-> Sub(t.q, FromInt(1)), r |-> t.r + d] ELSE t
+
+\* general division by a positive big d: truncating and floor variants, r as big
+TruncDivMod(a, d) == LET t == MDivMod(a.l, d.l) IN [q |-> Mk(a.s, t.q), r |-> Mk(a.s, t.r)]
+FloorDivMod(a, d) == LET t == TruncDivMod(a, d)
+                     IN IF t.r.s < 0 THEN [q |-> Sub(t.q, FromInt(1)), r |-> Add(t.r, d)] ELSE t
 
 Parity(b) == At(b.l, 1) % 2
 
